@@ -331,6 +331,7 @@ class WARCRecorder(object):
             before_offset = 0
 
         journal_filename = self._warc_filename + '-wpullinc'
+        rollback_failed = False
 
         try:
             with open(journal_filename, 'w') as file:
@@ -346,13 +347,19 @@ class WARCRecorder(object):
                 filename=self._warc_filename, length=before_offset
             )
             if os.path.exists(self._warc_filename):
+                # If the roll back fails as well, the journal is the only
+                # record of where the file was intact: keep it.
+                rollback_failed = True
+
                 # Not 'wb': that would discard the earlier records.
                 with open(self._warc_filename, mode='r+b') as out_file:
                     out_file.truncate(before_offset)
 
+                rollback_failed = False
+
             raise error
         finally:
-            if os.path.exists(journal_filename):
+            if not rollback_failed and os.path.exists(journal_filename):
                 os.remove(journal_filename)
 
         after_offset = os.path.getsize(self._warc_filename)
